@@ -26,6 +26,13 @@ template <class M> struct Ad<M, true> { using L = typename M::scoped_lock;
     static void acquire(L& l, M& m, bool w) { l.acquire(m, w); } static bool try_acquire(L& l, M& m, bool w) { return l.try_acquire(m, w); }
     static bool upgrade(L& l) { return l.upgrade_to_writer(); } static void downgrade(L& l) { l.downgrade_to_reader(); } };
 
+// speculative_spin_rw_mutex: hardware transactions cannot be scheduled here, so the link between the explored fall-back path and the
+// speculating readers is checked as a state invariant: readers that run as transactions look only at write_flag, therefore a writer
+// that holds the real lock must have it set for as long as it is inside.
+template <class L, class M> static void real_writer_visible(L&, M&, const char*) {}
+static void real_writer_visible(tbb::speculative_spin_rw_mutex::scoped_lock& l, tbb::speculative_spin_rw_mutex& m, const char* how) {
+    typedef tbb::detail::d1::rtm_rw_mutex::rtm_type RT;
+    if (l.m_transaction_state == RT::rtm_real_writer && !m.write_flag.load(std::memory_order_relaxed)) vf_fail("speculative_spin_rw_mutex: the writer that holds the real lock (%s) is invisible to readers running as transactions: write_flag is not set", how); }
 static void enter_w(const char* who) { if (++writers != 1 || readers) vf_fail("%s: writer section not exclusive (writers=%d readers=%d)", who, writers, readers); vf_plain_write(&payload); payload++; version++; vf_point(); }
 static void leave_w() { --writers; }
 static void enter_r(const char* who) { ++readers; if (writers) vf_fail("%s: reader inside while a writer holds the lock", who); vf_plain_read(&payload); }
@@ -36,13 +43,13 @@ template <class M, bool RW> struct Run { M m; using A = Ad<M, RW>; using L = typ
     // reuse=1: every thread keeps ONE scoped_lock object for all its sections (the queue node inside it is reused after release)
     void op(char c, L& l) { Ent e; e.thread = vf_self(); e.op = c; e.req_steps = vf_steps(); e.blocking = false; e.qpos = 0; int nb = vf_nblocks();
         switch (c) {
-        case 'W': A::acquire(l, m, true); e.blocking = true; e.writer = true; e.entry_stamp = vf_stamp(); entries.push_back(e); enter_w("lock"); leave_w(); l.release(); break;
+        case 'W': A::acquire(l, m, true); real_writer_visible(l, m, "lock"); e.blocking = true; e.writer = true; e.entry_stamp = vf_stamp(); entries.push_back(e); enter_w("lock"); leave_w(); l.release(); break;
         case 'R': ++r_waiting; A::acquire(l, m, false); --r_waiting; e.blocking = true; e.writer = false; e.entry_stamp = vf_stamp(); entries.push_back(e); enter_r("lock_shared"); vf_point(); leave_r(); l.release(); break;
-        case 't': { bool ok = A::try_acquire(l, m, true); if (vf_nblocks() != nb) vf_fail("try_lock went to sleep"); outcome += ok ? "t1" : "t0"; if (ok) { enter_w("try_lock"); leave_w(); l.release(); } } break;
+        case 't': { bool ok = A::try_acquire(l, m, true); if (vf_nblocks() != nb) vf_fail("try_lock went to sleep"); outcome += ok ? "t1" : "t0"; if (ok) { real_writer_visible(l, m, "try_lock"); enter_w("try_lock"); leave_w(); l.release(); } } break;
         case 'r': { bool ok = A::try_acquire(l, m, false); if (vf_nblocks() != nb) vf_fail("try_lock_shared went to sleep"); outcome += ok ? "r1" : "r0"; if (ok) { enter_r("try_lock_shared"); vf_point(); leave_r(); l.release(); } } break;
         case 'U': { A::acquire(l, m, false); enter_r("lock_shared"); int seen = version; vf_point(); leave_r(); bool ok = A::upgrade(l); outcome += ok ? "u1" : "u0";
                     if (ok && version != seen) vf_fail("upgrade_to_writer returned true although a writer ran in between");
-                    enter_w("upgraded"); leave_w(); l.release(); } break;
+                    real_writer_visible(l, m, "upgrade"); enter_w("upgraded"); leave_w(); l.release(); } break;
         case 'D': { A::acquire(l, m, true); enter_w("lock"); leave_w(); ++readers; /* becomes a reader atomically */ A::downgrade(l); int seen = version; if (writers) vf_fail("writer inside right after downgrade");
                     vf_plain_read(&payload); vf_point(); if (version != seen || writers) vf_fail("downgrade_to_reader let a writer in"); leave_r(); l.release(); } break;
         case 'E': { A::acquire(l, m, true); enter_w("lock"); leave_w();
